@@ -163,7 +163,10 @@ class Abs:
             left = self.ev(e.left)
             for op, c in zip(e.ops, e.comparators):
                 right = self.ev(c)
-                if not self.compare(op, left, right):
+                r = self.compare(op, left, right)
+                if isinstance(r, list) and len(e.ops) == 1:
+                    return r          # element-wise comparison of an abstract array
+                if not r:
                     return False
                 left = right
             return True
@@ -238,7 +241,7 @@ class Abs:
         if isinstance(op, ast.NotIn):
             return not self.compare(ast.In(), a, b)
         if isinstance(op, (ast.Eq, ast.NotEq)):
-            if self.eq is not None and (isinstance(a, Obj) or isinstance(b, Obj)):
+            if self.eq is not None and (isinstance(a, (Obj, Tok)) or isinstance(b, (Obj, Tok))):
                 r = self.eq(a, b)
                 if r is not None:
                     return r if isinstance(op, ast.Eq) else not r
@@ -303,13 +306,15 @@ class Abs:
             m = "%s.%s" % (base.cls, attr)
             if m in self.summaries:
                 return ("bound", m, base)
+            if base.attrs.get("__open__"):
+                return ("method", attr)      # any other attribute of an open object is an opaque bound method
             raise Raised("AttributeError(%s.%s)" % (base.cls, attr))
         if isinstance(base, dict) and attr in ("items", "keys", "values", "get", "update", "copy"):
             return ("dictm", attr, base)
         if isinstance(base, AList) and attr in base.extra:
             v = base.extra[attr]
             return ("bound", v[1], base) if isinstance(v, tuple) and v and v[0] == "method" else v
-        if isinstance(base, list) and attr in ("append", "extend", "index", "copy", "tolist"):
+        if isinstance(base, list) and attr in ("append", "extend", "index", "copy", "tolist", "pop", "insert", "remove", "reverse", "count"):
             return ("listm", attr, base)
         if isinstance(base, str) and attr in ("strip", "lower", "upper", "split"):
             return ("strm", attr, base)
@@ -317,6 +322,10 @@ class Abs:
             return ("listm", attr, list(base))
         if isinstance(base, Tok):
             return Tok("%s.%s" % (base.label, attr))
+        if isinstance(base, (list, dict, str, tuple)):
+            if attr in ("size", "shape", "ravel", "flatten", "tolist") and not isinstance(base, AList):
+                raise Raised("AttributeError(%s on a python %s)" % (attr, type(base).__name__))
+            raise Undecided("method %s of %s is not modelled" % (attr, type(base).__name__))
         raise Raised("AttributeError(%s on %r)" % (attr, base))
 
     def call(self, e):
@@ -389,6 +398,29 @@ class Abs:
         if dn == "filter":
             fn, seq = args
             return [x for x in self._iter(seq) if self.truth(self.apply(fn, [x], {}))]
+        if dn == "sorted":
+            try:
+                return sorted(self._iter(args[0]), reverse=bool(kw.get("reverse", False)))
+            except TypeError:
+                raise Undecided("sorting opaque values")
+        if dn == "reversed":
+            return list(reversed(self._iter(args[0])))
+        if dn == "set":
+            out = []
+            for x in self._iter(args[0]) if args else []:
+                if not any(self.compare(ast.Eq(), x, y) for y in out):
+                    out.append(x)
+            try:
+                return sorted(out)      # a set has no defined order; model it as sorted (numpy.unique / typical hash order for small ints)
+            except TypeError:
+                return out
+        if dn in ("min", "max") and args:
+            vals = self._iter(args[0]) if len(args) == 1 else list(args)
+            if any(isinstance(v, Tok) for v in vals):
+                raise Undecided("min/max of opaque values")
+            return min(vals) if dn == "min" else max(vals)
+        if dn == "abs" and args and isinstance(args[0], (int, float)):
+            return abs(args[0])
         if dn == "sum":
             tot = 0
             for x in self._iter(args[0]):
@@ -444,6 +476,25 @@ class Abs:
                     raise Raised("ValueError(index)")
                 if m in ("copy", "tolist"):
                     return list(l)
+                if m == "pop":
+                    try:
+                        return l.pop(*args)
+                    except IndexError:
+                        raise Raised("IndexError(pop)")
+                if m == "insert":
+                    l.insert(args[0], args[1])
+                    return None
+                if m == "remove":
+                    for i, x in enumerate(l):
+                        if self.compare(ast.Eq(), x, args[0]):
+                            del l[i]
+                            return None
+                    raise Raised("ValueError(remove)")
+                if m == "reverse":
+                    l.reverse()
+                    return None
+                if m == "count":
+                    return sum(1 for x in l if self.compare(ast.Eq(), x, args[0]))
             if tag == "strm":
                 _, m, s = f
                 return getattr(s, m)(*args)
